@@ -34,9 +34,10 @@ def log2(n):
 
 
 class Runner:
-    def __init__(s, cfg='avx2', omp=False):
+    def __init__(s, cfg='avx2', omp=False, opts=None):
         s.cfg = cfg
         s.omp = omp
+        s.opts = opts
         s.worlds = {}
         s.par = []          # parallel-region summaries of the last call (omp mode)
         s.leaks = []
@@ -45,7 +46,7 @@ class Runner:
         k = (cap, nthreads, ext)
         w = s.worlds.get(k)
         if w is None:
-            W = NTTWorld(s.cfg, omp=s.omp, sroa=True)
+            W = NTTWorld(s.cfg, omp=s.omp, sroa=True, opts=s.opts)
             this = W.construct(cap, nthreads, ext)
             W.I.global_writes = set()       # from here on: process-wide state written by calls (function-local statics, ...)
             w = (W, this, W.snapshot())
@@ -308,8 +309,8 @@ def describe_ext(c):
 
 
 def _worker(args):
-    kind, cfgs, cfgname = args
-    R = Runner(cfgname)
+    kind, cfgs, cfgname = args[:3]
+    R = Runner(cfgname, *args[3:])
     out = []
     for c in cfgs:
         try:
@@ -323,14 +324,14 @@ def _worker(args):
     return out
 
 
-def run_parallel(kind, cfgs, cfgname='avx2', nproc=None):
+def run_parallel(kind, cfgs, cfgname='avx2', nproc=None, omp=False, opts=None):
     import multiprocessing as mp
     nproc = nproc or min(16, os.cpu_count() or 4)
     if len(cfgs) < 64 or nproc == 1:
-        return _worker((kind, cfgs, cfgname))
+        return _worker((kind, cfgs, cfgname, omp, opts))
     chunks = [cfgs[i::nproc] for i in range(nproc)]
     with mp.Pool(nproc) as pool:
-        res = pool.map(_worker, [(kind, ch, cfgname) for ch in chunks])
+        res = pool.map(_worker, [(kind, ch, cfgname, omp, opts) for ch in chunks])
     out = []
     for r in res:
         out += r
